@@ -83,7 +83,18 @@ struct Own final : Tree, rb::container<T> {
    MakeKey make; Cmp cmp; ShowT show;
    std::map<Key, T*> first;      // element returned when the key was first inserted
    std::set<T*> seen;
+   // A second container of the very same type, alive next to this one: it receives every THIRD distinct key only and is asked for
+   // every key right after this one was -- two containers share nothing (what one found or inserted is unknown to the other).
+   Base sibling;
+   std::set<Key> in_sibling;
+   std::size_t distinct = 0;
    Own(MakeKey m, Cmp c, ShowT s) : make(m), cmp(c), show(s) { }
+   bool sibling_ok(const Key& k) {
+      T* q = sibling.find(make(k), cmp);
+      const bool there = in_sibling.count(k) != 0;
+      return (q != nullptr) == there and (q == nullptr or (show(*q) == show_key(k) and seen.count(q) == 0))
+         and sibling.size() == static_cast<decltype(sibling.size())>(in_sibling.size());
+   }
    std::string insert(const Key& k) override {
       auto before = this->size();
       T* p = Base::insert(make(k), cmp);
@@ -91,16 +102,20 @@ struct Own final : Tree, rb::container<T> {
       bool ok = p != nullptr and show(*p) == show_key(k);
       if (fresh) { ok = ok and first.emplace(k, p).second and this->size() == before + 1; }
       else { auto it = first.find(k); ok = ok and it != first.end() and it->second == p and this->size() == before; }
+      bool sib = sibling_ok(k);
+      if (fresh and distinct++ % 3 == 0) { sibling.insert(make(k), cmp); in_sibling.insert(k); sib = sib and sibling_ok(k); }
       std::string out = "size=" + std::to_string(this->size()) + " fresh=" + (fresh ? "1" : "0");
       out += "\n@ptr=" + std::string(ok ? "1" : "0");
+      out += "\n@sibling=" + std::string(sib ? "1" : "0");
       return out;
    }
    std::string find(const Key& k) override {
       T* p = Base::find(make(k), cmp);
-      if (p == nullptr) return "found=none";
+      const bool sib = sibling_ok(k);
+      if (p == nullptr) return std::string("found=none") + "\n@sibling=" + (sib ? "1" : "0");
       auto it = first.find(k);
       bool ok = it != first.end() and it->second == p;
-      return "found=" + show(*p) + "\n@ptr=" + (ok ? "1" : "0");
+      return "found=" + show(*p) + "\n@ptr=" + (ok ? "1" : "0") + "\n@sibling=" + (sib ? "1" : "0");
    }
    std::string dump(bool& links_ok) override {
       std::string out; int nodes = 0, height = 0;
